@@ -72,6 +72,14 @@ def safe_repr(obj: Any) -> str:
         return f"<{type(obj).__name__} object whose repr() raises>"
 
 
+class FrozenError(CustomError):
+    """an exception whose instances reject attribute assignment (what a `@dataclass(frozen=True)` exception class does): nobody has any
+    business storing attributes on somebody else's exception"""
+
+    def __setattr__(self, name: str, value: Any) -> None:
+        raise AttributeError(f"cannot assign to field {name!r}")
+
+
 def make_exc(kind: str, tag: Any) -> BaseException:
     if kind == "ValueError":
         return ValueError(f"injected {tag}")
@@ -80,6 +88,8 @@ def make_exc(kind: str, tag: Any) -> BaseException:
 
         cls = UnprintableCustom if zlib.crc32(str(tag).encode()) % 2 else CustomError
         return cls(f"injected {tag}")
+    if kind == "Frozen":
+        return FrozenError(f"injected {tag}")
     if kind == "Group":
         return ExceptionGroup(f"injected group {tag}", [ValueError(f"member {tag}"), KeyError(f"member2 {tag}")])
     if kind == "Group1":
